@@ -113,3 +113,115 @@ package comb
 //@     use binomDiag(n-k+i, i, k-i)
 //@     use mulMono(binom(n-k+i, i), i, binom(n, k), k)
 //@     decreases k + 1 - i
+
+//@ func Coeff
+//@   panics when n < 0 || binom(n, k) * min(k, n-k) > MaxInt
+//@   ensures n >= 0
+//@   ensures k < 0 ==> result == 0
+//@   ensures k >= 0 ==> result == binom(n, k)
+//@   opt lemmas=binomZero,binomGt,binomPos
+//@   use binomSym(n-k, k)
+
+// proved in QF_BV over the full 64-bit domain (the test is a sign-bit trick)
+//@ func addHasOverflowed
+//@   opt mode=bv
+//@   ensures overflow <==> (a + b > MaxInt || a + b < MinInt)
+//@   ensures !overflow ==> sum == a + b
+
+//@ lemma binomMax66(n int, k int)
+//@   requires 0 <= n && n <= 66 && 0 <= k
+//@   ensures binom(n, k) <= 7219428434016265740
+//@   by lean
+//@   pattern binom(n, k)
+
+//@ lemma binomNonneg(n int, k int)
+//@   requires 0 <= n && 0 <= k
+//@   ensures binom(n, k) >= 0
+//@   by lean
+//@   pattern binom(n, k)
+
+//@ func Coeffs
+//@   requires 0 <= n && n < 4294967296
+//@   panics when n >= 67
+//@   ensures len(result) == n+1
+//@   ensures forall r in 0..n+1: len(result[r]) == r/2+1
+//@   ensures forall r in 0..n+1: forall c in 0..r/2+1: result[r][c] == binom(r, c)
+//@   opt lemmas=binomZero,binomMax66,binomNonneg
+//@   loop 1
+//@     invariant 0 <= i && i <= n+1 && len(coeffs) == n+1
+//@     invariant forall r in 0..i: len(coeffs[r]) == r/2+1
+//@     invariant forall r in 0..i: forall c in 0..r/2+1: coeffs[r][c] == binom(r, c)
+//@     decreases n + 1 - i
+//@   loop 2
+//@     invariant 1 <= j && j <= i/2+1 && len(tmp) == i/2+1 && 0 <= i && i <= n
+//@     invariant forall c in 0..j: tmp[c] == binom(i, c)
+//@     use binomPascal(i-1, j-1)
+//@     use binomSym(j, j-1)
+//@     decreases i/2 + 1 - j
+
+// colex rank: sum over positions t of C(c[t], t+1)
+//@ spec sumC(c []int, t int) int = (t <= 0 ? 0 : sumC(c, t-1) + binom(c[t-1], t))
+
+//@ func Rank
+//@   panics when exists t in 0..len(comb): comb[t] < 0 || binom(comb[t], t+1) * min(t+1, comb[t]-t-1) > MaxInt || sumC(comb, t+1) > MaxInt
+//@   ensures result == sumC(comb, len(comb))
+//@   opt lemmas=binomNonneg
+//@   loop 1
+//@     invariant -1 <= rangeindex && (rangeindex < len(comb) || (len(comb) == 0 && rangeindex == -1))
+//@     invariant rank == sumC(comb, rangeindex+1) && 0 <= rank
+//@     invariant forall t in 0..rangeindex+1: comb[t] >= 0
+//@     decreases len(comb) - rangeindex
+
+//@ lemma binomSelf(n int)
+//@   requires 0 <= n
+//@   ensures binom(n, n) == 1
+//@   by lean
+//@   pattern binom(n, n)
+
+// C(k+e+1, k) * (e+1) == C(k+e, k) * (k+e+1)
+//@ lemma binomStepUp(k int, e int)
+//@   requires 0 <= k && 0 <= e
+//@   ensures binom(k+e+1, k) * (e+1) == binom(k+e, k) * (k+e+1)
+//@   by lean
+
+//@ lemma binomGeN(n int, k int)
+//@   requires 1 <= k && k < n
+//@   ensures binom(n, k) >= n
+//@   by lean
+
+//@ lemma mulCancel(a int, c int, d int)
+//@   requires d > 0 && a * d >= c * d
+//@   ensures a >= c
+//@   by smt
+
+// colex rank written from position lo upwards
+//@ spec tailC(c []int, lo int, hi int) int = (lo >= hi ? 0 : binom(c[lo], lo+1) + tailC(c, lo+1, hi))
+
+//@ lemma tailFrame(c1 []int, c2 []int, lo int, hi int)
+//@   requires forall t in lo..hi: c1[t] == c2[t]
+//@   ensures tailC(c1, lo, hi) == tailC(c2, lo, hi)
+//@   by induction hi - lo
+//@   pattern tailC(c1, lo, hi), tailC(c2, lo, hi)
+
+//@ func Unrank
+//@   requires 0 <= rank && 0 <= k && (k >= 1 || rank == 0)
+//@   ensures len(result) == k && fresh(result)
+//@   ensures forall t in 0..k: result[t] >= t
+//@   ensures forall t in 0..k-1: result[t] < result[t+1]
+//@   ensures tailC(result, 0, k) == rank
+//@   opt lemmas=binomZero,binomGt,binomSelf,binomMono,binomNonneg,tailFrame
+//@   loop 1
+//@     invariant -1 <= i && i <= k-1 && len(comb) == k && 0 <= m
+//@     invariant m + tailC(comb, i+1, k) == rank
+//@     invariant i+1 < k ==> m < binom(comb[i+1], i+1)
+//@     invariant forall t in i+1..k: comb[t] >= t
+//@     invariant forall t in i+1..k-1: comb[t] < comb[t+1]
+//@     decreases i + 1
+//@   loop 2
+//@     invariant i <= l && b == binom(l, i+1) && 0 <= b && b <= m
+//@     use binomStepUp(i+1, l-i-1)
+//@     use binomPascal(l, i)
+//@     use binomPos(l, i)
+//@     use binomGeN(l+1, i+1)
+//@     use mulCancel(binom(l+1, i+1), 18446744073709551616, l-i)
+//@     decreases m - b
